@@ -96,6 +96,9 @@ func (e *Engine) GenVC(fn *ssa.Function, opts VerifyOpts) (res *FuncVC) {
 	res.NumLoops = len(fr.loopOrd)
 	vc.opaque = map[string]bool{}
 	vc.binderTyping = fr.contract != nil && fr.contract.Options["binder-typing"]
+	if fr.contract != nil && fr.contract.Options["relative-index"] {
+		vc.noRebase = true
+	}
 	if fr.contract != nil && fr.contract.Options["heap-closedness"] {
 		vc.closedness = true
 	}
@@ -139,6 +142,10 @@ func (e *Engine) GenVC(fn *ssa.Function, opts VerifyOpts) (res *FuncVC) {
 				entryFacts = append(entryFacts, lt("0", p.Base))
 			}
 		}
+	}
+	// ghost globals (ghostXxx variables of contract files) exist from the start, so that every call havocs them (applyMods)
+	for _, g := range e.ghostGlobals() {
+		vc.declareLeafHeaps(st, "G|"+g.Pkg.Pkg.Path()+"."+g.Name(), "", g.Type().(*types.Pointer).Elem())
 	}
 	fr.entry = st.clone()
 	res.entry = fr.entry
